@@ -88,14 +88,19 @@ def scenarios(tier):
     origins = {('10.0.0.1', 80): lambda: HttpOrigin([], respond=lambda c, k, r: [OK]),
                ('10.0.0.1', 443): lambda: RawOrigin(greeting=[b'srv'])}
     for cred in creds:
-        for withrec in (False, True):
-            fo = {'plugins': [plugins.recorder('after')]} if withrec else {}
+        for withrec in (False, True, 'listed'):
+            # 'listed': the operator also names the auth plugin explicitly, AFTER a user plugin -- it must still
+            # run ahead of every user plugin
+            fo = {'plugins': [plugins.recorder('after')] + ([b'proxy.http.proxy.auth.AuthPlugin'] if withrec == 'listed' else [])} \
+                if withrec else {}
             for dis in ((), ('--disable-headers', 'x-foo,accept-encoding')):
+              if withrec == 'listed' and dis:
+                  continue
               fa = ['--threadless', '--basic-auth', cred.decode()] + list(dis)
               for (rname, mk, addr) in requests():
                   hv = header_variants(cred, tier)
                   for (label, lines, exp) in hv:
-                      if dis and label not in ('absent', 'exact/Basic/std/Proxy-Authorization', 'exact/basic/std/proxy-authorization', 'exact/Basic/std/pRoXy-AuThOrIzAtIoN', 'otheruser/Basic/std/Proxy-Authorization', 'dup-good-good'):
+                      if (dis or withrec == 'listed') and label not in ('absent', 'exact/Basic/std/Proxy-Authorization', 'exact/basic/std/proxy-authorization', 'exact/Basic/std/pRoXy-AuThOrIzAtIoN', 'otheruser/Basic/std/Proxy-Authorization', 'dup-good-good'):
                           continue
                       raw = mk(lines)
                       pks = [('whole', [raw])]
@@ -104,22 +109,26 @@ def scenarios(tier):
                           pks.append(('cut_in_header', [raw[:i], raw[i:]]))
                       if tier == 'thorough' or label in ('absent', 'exact/Basic/std/Proxy-Authorization', 'dup-bad-good'):
                           pks.append(('per_byte', [raw[i:i + 1] for i in range(len(raw))]))
-                      if tier == 'quick' and withrec and rname in ('POST', 'HEADERS-FIRST'):
+                      if tier == 'quick' and withrec is True and rname in ('POST', 'HEADERS-FIRST'):
                           pks = pks[:1]
                       for pname, pieces in pks:
                           # second request on the same connection, with and without the header
                           for second in ((None,) if rname == 'CONNECT' or (tier == 'quick' and pname != 'whole')
-                                         else (None, 'with', 'without')):
+                                         else (None, 'with', 'without', 'upgrade')):
                               script = [('send', p) for p in pieces] + [('wait_idle',)]
                               if second:
-                                  l2 = [b'Proxy-Authorization: Basic ' + b64(cred)] if second == 'with' else []
+                                  l2 = [b'Proxy-Authorization: Basic ' + b64(cred)] if second in ('with', 'upgrade') else []
+                                  if second == 'upgrade':
+                                      # a websocket handshake sent as a follow-up request takes its own code path
+                                      l2 += [b'Connection: Upgrade', b'Upgrade: websocket', b'Sec-WebSocket-Key: dGhlIHNhbXBsZSBub25jZQ==',
+                                             b'Sec-WebSocket-Version: 13']
                                   script += [('send', mk(l2).replace(b'/g ', b'/g2 ').replace(b'/p ', b'/p2 ')), ('wait_idle',)]
                               out.append(Scenario(
-                                  '%s/%s%s/%s/%s/%s/%s' % (cred.decode(), 'rec' if withrec else 'norec', '+dis' if dis else '', rname, label, pname, second),
+                                  '%s/%s%s/%s/%s/%s/%s' % (cred.decode(), ('rec+authlisted' if withrec == 'listed' else 'rec') if withrec else 'norec', '+dis' if dis else '', rname, label, pname, second),
                                   fa, flags_opts=fo, mode='local', clients=[dict(script=script)], origins=origins,
                                   dns={'h.test': '10.0.0.1'}, kinds='', horizon=1500,
                                   features={'method': rname, 'variant': label.split('/')[0], 'expect': exp,
-                                            'recorder': withrec, 'packing': pname, 'second': str(second), 'disable_headers': bool(dis),
+                                            'recorder': bool(withrec), 'auth_plugin_listed': withrec == 'listed', 'packing': pname, 'second': str(second), 'disable_headers': bool(dis),
                                             '_cred': cred, '_label': label}))
     return out
 
